@@ -17,7 +17,15 @@ ASSUME = [
 ]
 
 
+# The late-joiner clause at the writer ("a Volatile one receives only later samples"): every interleaving of write /
+# match (reader requesting TransientLocal or not) / ACKNACK / repair of the implementation-shaped writer model, its
+# behaviours replayed on the real Writer, plus random runs; clause C07_history_sent_to_reader_that_did_not_request_it
+WRITER_SRC = dict(driver="writer", model="RtpsWriter.tla", trace_module="Trace_RtpsWriter.tla", trace_cfg="Trace_RtpsWriter.cfg",
+                  tiers={"quick": dict(mc=[("MC_RtpsWriter_q_all.cfg", 8), ("MC_RtpsWriter_q_vol.cfg", 8)], replay_limit=3000, random=dict(runs=120, events=120)),
+                         "thorough": dict(mc=[("MC_RtpsWriter_t_all.cfg", 12), ("MC_RtpsWriter_t_vol.cfg", 12)], replay_limit=40000, random=dict(runs=1500, events=300))})
+
+
 def run(pid, tier, seed, replay=None):
     return run_pipeline(pid, tier, seed, replay, driver="system", model="System.tla",
                         trace_module="Trace_System.tla", trace_cfg="Trace_System.cfg",
-                        tiers=TIERS, prefixes=(pid + "_",), assumptions=ASSUME, known_env=("KNOWN_S16",))
+                        tiers=TIERS, prefixes=(pid + "_",), assumptions=ASSUME, known_env=("KNOWN_S16", "KNOWN_S3"), extra_sources=(WRITER_SRC,))
